@@ -256,5 +256,29 @@ func TestSorted(t *testing.T) {
 }
 `
 	out = append(out, s)
+	// type names that start with a multi-byte character: the names -autoname mints from them are cut between
+	// characters (before fix b3e2f24 the second minted name ended in half a character, go/format failed on it
+	// and, the file having been truncated first, the user's file was left empty)
+	s = base("unicode-type-names", "unicode")
+	s.Files["pkg/u.go"] = `package pkg
+
+import (
+	"fmt"
+	"strings"
+)
+
+type Ünit struct{ A []int }
+type Öther struct{ B []string }
+type Örder struct{ C map[string]int }
+
+var _ = fmt.Sprint
+var _ = strings.TrimSpace
+
+// same: three value types, one name
+func same(a, b Ünit, c, d Öther, e, g Örder) bool {
+	return deriveEqual(e, g) && deriveEqual(a, b) &&   deriveEqual(c, d) // trailing
+}
+`
+	out = append(out, s)
 	return out
 }
